@@ -332,6 +332,32 @@ class BuiltinMixin:
         st.write("$elems", vr(recv.t), z3.Concat(self.elems(st, recv), self.iter_to_seq(st, it)))
         return R(st, V(NONE, "none"))
 
+    def m_list_remove(self, st, recv, a, kw, lineno):
+        """l.remove(x): the first occurrence of x is taken out (ValueError when absent)"""
+        seq = self.elems(st, recv)
+        has = z3.Contains(seq, z3.Unit(a[0].t))
+        ok = st.copy(); ok.assume(has)
+        bad = st.copy(); bad.assume(z3.Not(has))
+        out = []
+        if self.feasible(ok):
+            k = z3.IndexOf(seq, z3.Unit(a[0].t), 0)
+            res = z3.Concat(z3.SubSeq(seq, 0, k), z3.SubSeq(seq, k + 1, z3.Length(seq) - k - 1))
+            ok.write("$elems", vr(recv.t), res)
+            out.append(Res(ok, V(NONE, "none")))
+        if self.feasible(bad):
+            out.append(Res(bad, None, "raise", "ValueError"))
+        return out
+
+    def m_str_replace(self, st, recv, a, kw, lineno):
+        """s.replace(a, b): uninterpreted string of its arguments (identity when a does not occur)"""
+        f = z3.Function("str_replace", z3.StringSort(), z3.StringSort(), z3.StringSort(), z3.StringSort())
+        r = f(vs(recv.t), vs(a[0].t), vs(a[1].t))
+        st.assume(z3.Implies(z3.Not(z3.Contains(vs(recv.t), vs(a[0].t))), r == vs(recv.t)))
+        return R(st, V(StrV(r), "str"))
+
+    def bi_os_fsdecode(self, st, a, kw, n):
+        return R(st, V(a[0].t, "str") if base_type(a[0].ty) == "str" else V(StrV(z3.Function("fsdecode", Val, z3.StringSort())(a[0].t)), "str"))
+
     def m_list_pop(self, st, recv, a, kw, lineno):
         if a:
             raise Unsupported("list.pop(i)")
